@@ -43,6 +43,7 @@ func runC10(c *Ctx) {
 	ruleStatementTextUnmodified(c, "C10.17")
 	ruleEnumIntervalLoops(c, "C10.18")
 	ruleClauseOrder(c, "C10.19")
+	ruleStatementFieldsFromProductions(c, "C10.20")
 }
 
 // ---- C10.1 --------------------------------------------------------------------
